@@ -621,18 +621,20 @@ func (e *Engine) TLSDataHandler(c *nbio.Conn, data []byte) {
 			for {
 				_, nread, err := tlsConn.AppendAndRead(readed, buffer)
 				readed = nil
+				// AppendAndRead may return data together with an error
+				// (the peer's close_notify following the last record).
+				if nread > 0 {
+					parserCloser = c.Session().(ParserCloser)
+					errParse := parserCloser.Parse(buffer[:nread])
+					if errParse != nil {
+						logging.Debug("ParserCloser.Read failed: %v", errParse)
+						_ = c.CloseWithError(errParse)
+						return
+					}
+				}
 				if err != nil {
 					_ = c.CloseWithError(err)
 					return
-				}
-				if nread > 0 {
-					parserCloser = c.Session().(ParserCloser)
-					err := parserCloser.Parse(buffer[:nread])
-					if err != nil {
-						logging.Debug("ParserCloser.Read failed: %v", err)
-						_ = c.CloseWithError(err)
-						return
-					}
 				}
 				if nread == 0 {
 					return
